@@ -20,7 +20,7 @@ from ..kernel import (Violation, call, close, identical, is_exc, short,
                       snapshot, snapshot_equal)
 
 PROP = 'C19'
-MUTATORS = {'mutate_user', 'eval', 'par_eval', 'fix_ll'}
+MUTATORS = {'mutate_user', 'eval', 'par_eval', 'fix_ll', 'mutate_data'}
 OBSERVERS = {'eval', 'par_eval'}
 BUDGET = {'quick': {'runs': 1800, 'wall': 75},
           'thorough': {'runs': 60000, 'wall': 1500}}
@@ -42,6 +42,9 @@ class Table(object):
     def __init__(self, recipes):
         self.recipes = {r['h']: r for r in recipes}
         self.objs = {}
+        # arrays / data frames handed to constructors: (handle, what,
+        # snapshot taken before the call, the object itself)
+        self.inputs = []
 
     def get(self, h):
         if h not in self.objs:
@@ -62,9 +65,11 @@ class Table(object):
         if k == 'loglik':
             mech = self.get(r['mech'])
             errs = [self.get(h) for h in r['errors']]
-            ll = chi.LogLikelihood(
-                mech, errs, [list(o) for o in r['obs']],
-                [list(t) for t in r['times']])
+            obs = [np.array(o, dtype=float) for o in r['obs']]
+            times = [np.array(t, dtype=float) for t in r['times']]
+            for a in obs + times:
+                self.inputs.append((r['h'], 'data array', snapshot(a), a))
+            ll = chi.LogLikelihood(mech, errs, obs, times)
             if r.get('id') is not None:
                 ll.set_id(r['id'])
             if r.get('fix'):
@@ -92,6 +97,7 @@ class Table(object):
             n_out = mech.n_outputs()
             ts = r['times']
             data = np.array(r['data'])[:, :n_out, :len(ts)]
+            self.inputs.append((r['h'], 'filter data', snapshot(data), data))
             flt = chi.GaussianFilter(data)
             sigma = r.get('sigma')
             n_top = pop.n_parameters() + (0 if sigma else n_out)
@@ -150,6 +156,7 @@ class Table(object):
                 kw = {'dose_key': 'Dose', 'dose_duration_key': 'Duration'}
             if r.get('pop'):
                 ctrl.set_population_model(self.get(r['pop']))
+            self.inputs.append((r['h'], 'data frame', snapshot(df), df))
             ctrl.set_data(df, **kw)
             if k == 'ctrl_pred':
                 return ctrl.get_predictive_model()
@@ -363,6 +370,18 @@ def run(scenario, world):
     # at this moment)
     for r in recipes:
         main.get(r['h'])
+
+    def check_inputs(step):
+        for h_, what, snap, obj_ in main.inputs:
+            if h_ in data_dirty:
+                continue
+            if not snapshot_equal(snap, obj_):
+                raise Violation(
+                    'argument_mutated', 'constructor_input',
+                    'the %s handed to the constructor of %s was modified' % (
+                        what, h_), step)
+    data_dirty = set()
+    check_inputs(-1)
     refs = {}           # distinct query -> reference result
     dirty = set()       # user models changed by the caller (F5)
     triples = []
@@ -481,6 +500,19 @@ def run(scenario, world):
                 world.log('res', q, _loggable(res_c))
             triples.append((prev, q, kind))
             prev = q
+            check_inputs(step)
+        elif o == 'mutate_data':
+            # F5 for data: the caller overwrites his own observation / time
+            # arrays after the likelihood was built from them
+            h = op['on']
+            n_ch = 0
+            for h_, what, snap, obj_ in main.inputs:
+                if h_ == h and what == 'data array' and len(obj_):
+                    obj_[op['pos'] % len(obj_)] += op['delta']
+                    n_ch += 1
+            if n_ch:
+                data_dirty.add(h)
+                world.fire('caller_overwrote_data_arrays')
         elif o == 'fix_ll':
             h = op['on']
             if h not in kinds or kinds[h] != 'loglik' or h in dirty:
@@ -936,6 +968,13 @@ def generate(rng, index, tier):
                  else round(rng.uniform(0.3, 1.5), 3)]
                 for _ in range(rng.randint(1, 2))]})
             continue
+        if r > 0.97 and mut_on:
+            lls_ = [h_ for h_ in handles if kinds[h_] == 'loglik']
+            if lls_:
+                ops.append({'op': 'mutate_data', 'on': rng.choice(lls_),
+                            'pos': rng.randint(0, 5),
+                            'delta': round(rng.uniform(0.1, 1.0), 2)})
+                continue
         if r < (0.12 if user_reduced else 0.06) and mut_on:
             h = rng.choice(['m'] + errs)
             op = {'op': 'mutate_user', 'on': h}
